@@ -5,12 +5,14 @@ Layer M, collector layer (`whoosh/collectors.py`) over *abstract* matchers.
 A matcher is seen by a collector only through `is_active / id / score / next / replace /
 skip_to_quality / supports_block_quality`.  Here a matcher is the list of postings it would still
 yield (ascending segment-relative document numbers), and the two optimisation entry points are an
-**arbitrary schedule of drops**: each iteration of the collection loop consumes one `Step` of the
-schedule which says which pending postings a `replace(minscore)` issued in that iteration would
-like to lose and how many leading postings a `skip_to_quality(minscore)` would like to skip.  The
-model honours a wish only if the posting scores `≤` the threshold the collector passed — this is
-the C12 contract ("a dropped entry scores ≤ the threshold in force") that the `matcher` family
-proves for the real matchers.  Everything else — when the collector calls `replace`, with which
+**arbitrary schedule of wishes**: each iteration of the collection loop consumes one `Step` of the
+schedule which says, for a `replace(minscore)` and for a `skip_to_quality(minscore)` issued in that
+iteration, what should happen to every pending posting — keep it, drop it, or lower its score
+(a union that moved one of its sub-matchers past the document) — and how many leading postings
+`skip_to_quality` skips and reports.  The model honours a wish only if the threshold the collector
+passed is not 0 ("no threshold") and the posting scores `≤` it, and never raises a score — this is
+the C12 contract `WM.Matcher.Keeps` (`WM.C05.contract_covered`: every outcome `Keeps` allows is the
+outcome of some list of wishes); `replace(0)` changes nothing.  Everything else — when the collector calls `replace`, with which
 (possibly stale) threshold, when it calls `skip_to_quality`, how `minscore` moves, the heap, the
 segment loop, the wrapping collectors — mirrors the Python line by line.
 -/
@@ -28,31 +30,63 @@ deriving DecidableEq, Repr
     matcher lands on this posting ("entered a new block"). -/
 structure Posting where
   doc : Nat
+  /-- the score the matcher reports for the posting now -/
   score : Rat
   newBlock : Bool
+  /-- the score the posting had when the matcher was created (what an exhaustive search sees).
+      `replace`/`skip_to_quality` may *lower* `score` for postings at or below their threshold (a
+      union that skipped one sub-matcher past the document, C12 `Dominated`); `orig` never changes.
+      Inputs have `orig = score`. -/
+  orig : Rat
+deriving DecidableEq, Repr, Inhabited
+
+/-- A fresh posting (`orig = score`). -/
+def Posting.mk' (doc : Nat) (score : Rat) (newBlock : Bool) : Posting := ⟨doc, score, newBlock, score⟩
+
+/-- The posting as the exhaustive search sees it. -/
+def Posting.origP (p : Posting) : Posting := { p with score := p.orig }
+
+/-- What a `replace`/`skip_to_quality` call would like to do to one pending posting. -/
+inductive Wish where
+  | keep
+  | drop
+  | lower (s : Rat)
 deriving DecidableEq, Repr, Inhabited
 
 /-- One element of the drop schedule, consumed by one iteration of `ScoredCollector.matches`. -/
 structure Step where
-  /-- `replace()`: the i-th pending posting is dropped if `mask[i]` and its score is `≤` the threshold. -/
-  mask : List Bool
+  /-- `replace()`: what happens to the i-th pending posting — only if its score is `≤` the (non-zero)
+      threshold: dropped, or its score lowered (never raised). -/
+  mask : List Wish
   /-- what `supports_block_quality()` answers on the matcher returned by `replace()` -/
   supports : Bool
   /-- `skip_to_quality()`: at most this many leading postings are skipped, each only if its score is
       `≤` the threshold -/
   skip : Nat
+  /-- `skip_to_quality()`: what happens to the postings that are not skipped as a prefix (same rule
+      as `mask`: sub-matchers of a compound skip individually) -/
+  skipMask : List Wish := []
 deriving Repr, Inhabited
 
 def Step.none : Step := { mask := [], supports := true, skip := 0 }
 
-/-- `matcher.replace(thr)` under the schedule. -/
-def dropMasked (thr : Rat) : List Bool → List Posting → List Posting
+/-- `matcher.replace(thr)` under the schedule (C12 contract `Keeps thr`): postings scoring above
+    `thr` are untouched; a posting at or below `thr` may be dropped or have its score lowered. A
+    threshold of 0 is "no threshold": `replace(0)` only simplifies the tree and changes nothing
+    (every `replace` of whoosh tests `if minquality and …`; C11 `replace0` of the matcher family). -/
+def dropMasked (thr : Rat) : List Wish → List Posting → List Posting
   | _, [] => []
   | [], ps => ps
-  | b :: bs, p :: ps =>
-    if b && decide (p.score ≤ thr) then dropMasked thr bs ps else p :: dropMasked thr bs ps
+  | w :: ws, p :: ps =>
+    if thr != 0 && decide (p.score ≤ thr) then
+      match w with
+      | .keep => p :: dropMasked thr ws ps
+      | .drop => dropMasked thr ws ps
+      | .lower s => (if s ≤ p.score then { p with score := s } else p) :: dropMasked thr ws ps
+    else p :: dropMasked thr ws ps
 
-/-- `matcher.skip_to_quality(thr)` under the schedule: returns the matcher and the number skipped. -/
+/-- The block-skipping part of `matcher.skip_to_quality(thr)` under the schedule: returns the
+    matcher and the number skipped. -/
 def skipDrop (thr : Rat) : Nat → List Posting → List Posting × Nat
   | 0, ps => (ps, 0)
   | _ + 1, [] => ([], 0)
@@ -62,7 +96,7 @@ def skipDrop (thr : Rat) : Nat → List Posting → List Posting × Nat
       (r.1, r.2 + 1)
     else (p :: ps, 0)
 
-theorem dropMasked_length_le (thr : Rat) (mask : List Bool) (ps : List Posting) :
+theorem dropMasked_length_le (thr : Rat) (mask : List Wish) (ps : List Posting) :
     (dropMasked thr mask ps).length ≤ ps.length := by
   induction ps generalizing mask with
   | nil => cases mask <;> simp [dropMasked]
@@ -70,10 +104,11 @@ theorem dropMasked_length_le (thr : Rat) (mask : List Bool) (ps : List Posting) 
     cases mask with
     | nil => simp [dropMasked]
     | cons b bs =>
+      have := ih bs
       simp only [dropMasked]
       split
-      · have := ih bs; simp only [List.length_cons]; omega
-      · have := ih bs; simp only [List.length_cons]; omega
+      · cases b <;> simp only [List.length_cons] <;> omega
+      · simp only [List.length_cons]; omega
 
 theorem skipDrop_length_le (thr : Rat) (n : Nat) (ps : List Posting) :
     (skipDrop thr n ps).1.length ≤ ps.length := by
@@ -208,12 +243,15 @@ def replacePhase (cfg : Cfg) (selfMin : Rat) (step : Step) (m : List Posting) (l
     else (m, { lv with replacecounter := lv.replacecounter - 1 }, tr, false)
   else (m, lv, tr, false)
 
-/-- `if usequality and checkquality and minscore is not None: self.skipped_times += matcher.skip_to_quality(minscore)`. -/
+/-- `if usequality and checkquality and minscore: self.skipped_times += matcher.skip_to_quality(minscore)`
+    (after `fix: ScoredCollector.matches does not call skip_to_quality() while there is no minimum
+    score`: `minscore = 0` means the heap is not full yet). -/
 def skipPhase (step : Step) (m : List Posting) (lv : Locals) (tr : Trace) : List Posting × Trace :=
-  if lv.usequality && lv.checkquality then
+  if lv.usequality && lv.checkquality && lv.minscore != 0 then
     let r := skipDrop lv.minscore step.skip m
-    (r.1, { tr with skipped := tr.skipped + r.2, thresholds := lv.minscore :: tr.thresholds,
-                    mayHaveDropped := true })
+    (dropMasked lv.minscore step.skipMask r.1,
+     { tr with skipped := tr.skipped + r.2, thresholds := lv.minscore :: tr.thresholds,
+               mayHaveDropped := true })
   else (m, tr)
 
 theorem replacePhase_length_le (cfg : Cfg) (selfMin : Rat) (step : Step) (m : List Posting) (lv : Locals)
@@ -229,7 +267,7 @@ theorem skipPhase_length_le (step : Step) (m : List Posting) (lv : Locals) (tr :
     (skipPhase step m lv tr).1.length ≤ m.length := by
   unfold skipPhase
   split
-  · exact skipDrop_length_le _ _ _
+  · exact Nat.le_trans (dropMasked_length_le _ _ _) (skipDrop_length_le _ _ _)
   · exact Nat.le_refl _
 
 /-- What `matcher.next()` returns to the collector ("entered a new block") when the pending postings
@@ -444,8 +482,9 @@ def dictGet {α : Type} (name : Int) (dflt : α) (m : List (Int × α)) : α :=
   | none => dflt
 
 /-- `collectors.py: CollapseCollector.collect` (after `fix: CollapseCollector collapses in
-    collect()` and `fix: documents replaced by collapsing are counted…`). `ckey d = none` is a falsy
-    key (`if not ckey`: `None`, `''`, `0` …). The child collector is abstracted to the list of
+    collect()` and `fix: documents replaced by collapsing are counted…`). `ckey d = none` is a missing/empty
+    key (`None`, `''`, `b''`; after `fix: CollapseCollector collapses documents whose key is 0` the
+    number 0 is a key like any other). The child collector is abstracted to the list of
     documents it currently holds (`child.collect` appends, `child.remove` deletes). -/
 def collapseCollect (ckey : Nat → Option Int) (skey : Nat → Key) (limit : Nat) (st : CollapseSt) (d : Nat) :
     Except Err CollapseSt :=
@@ -486,7 +525,7 @@ collector and hands the surviving documents to `CollapseCollector.collect`, whic
 structure Wrap where
   allow : Option (List Nat) := none
   restrict : Option (List Nat) := none
-  /-- collapse facet: `ckey` (none = falsy key), `limit`, optional order facet -/
+  /-- collapse facet: `ckey` (none = no key: `None`, `''`, `b''`), `limit`, optional order facet -/
   collapse : Option ((Nat → Option Int) × Nat × Option (Nat → Key)) := none
 
 structure StackSt where
